@@ -95,6 +95,7 @@ class Flow(object):
         self.cfg = cfg_of(fn)
         self.pure_self = set(pure_self_methods)
         self.pure_calls = set(pure_calls) | PURE_FUNCS
+        self.positive = set()    # atoms assumed >= 1 (set by the rule)
         self.defs = []
         self.node_defs = {}      # node id -> [Def]
         self.atom_loc = {}       # atom name -> set of location node ids
@@ -879,9 +880,14 @@ class Flow(object):
                     d = r.const_value()
                     ax.append(le(A * d, l, "d*(e//d) <= e"))
                     ax.append(le(l, A * d + (d - 1), "e <= d*(e//d)+d-1"))
-                else:
-                    # symbolic positive divisor: product atom q*d
-                    pass
+                elif r.atoms() and all(x in self.positive
+                                       for x in r.atoms()) and \
+                        r.is_linear() and len(r.t) == 1:
+                    # symbolic divisor assumed >= 1: d*q <= e <= d*q + d - 1
+                    # (the product d*q is an opaque monomial for FM)
+                    ax.append(le(A * r, l, "d*(e//d) <= e"))
+                    ax.append(le(l, A * r + r - 1, "e <= d*(e//d)+d-1"))
+                    ax.append(le(1, r, "assumed divisor >= 1"))
             elif kind == "mod":
                 l, r = info[1], info[2]
                 todo |= l.atoms() | r.atoms()
